@@ -26,7 +26,9 @@ EXCLUDED_PANIC_FNS = {
     "rand_jitter::error::TimerError::description": "unreachable!() on the doc(hidden) __Nonexhaustive variant, which no API produces",
     "rand_jitter::platform::get_nstime": "SystemTime before the UNIX epoch: a broken system clock is not a timer reading of the property's domain",
 }
-FLOORS = {"rand_xoshiro": 290, "rand_hc": 195, "rand_isaac": 118, "rand_jitter": 44, "rand_xorshift": 13}
+# vacuity guard only: about 80% of the edges counted on the reference tree (300/202/124/45/13), so that an edit which legitimately
+# removes a few checked operations is not reported
+FLOORS = {"rand_xoshiro": 240, "rand_hc": 160, "rand_isaac": 99, "rand_jitter": 36, "rand_xorshift": 10}
 
 
 def roots_of(crate):
